@@ -533,6 +533,11 @@ func runC06(r *vk.Run) {
 			if !utf8.ValidString(v) {
 				continue
 			}
+			if rng.Chance(1, 40) {
+				// a long field (a stack trace, a payload): lines of 16 KiB .. 60 KiB are lines
+				v = strings.Repeat(vk.Pick(rng, []string{"x", "ab ", "trace/"}), vk.Pick(rng, []int{5500, 17000, 20000}))
+				c.Count("logfmt_lines_over_16k", 1)
+			}
 			pairs = append(pairs, [2]string{k, v})
 		}
 		line := writeLogfmt(pairs)
